@@ -1,6 +1,7 @@
 (** C18 — purge removes the entry everywhere and touches nothing else. *)
 From Coq Require Import List Arith Bool NArith ZArith Lia.
 From Pike Require Import Model.Sys Proofs.SysInv Proofs.SysStep Proofs.SysTheorems Proofs.SysFacts Corr.SysCorr.
+From Pike Require Proofs.Lockset Proofs.Atomic.
 From Pike Require Model.LRU Model.Dispatcher Proofs.DispatcherProofs.
 Import ListNotations.
 
@@ -73,3 +74,11 @@ Example C18_purge_then_refetch :
   option_map (fun s => (map obs_of (ts s), sobs_of (store s))) (run (init 1000000 0 true false) ls)
   = Some ([TDone LFetching (Some 1) 0; TDone LHit (Some 1) 0; TUpstream LFetching], SoNone).
 Proof. vm_compute. reflexivity. Qed.
+
+(** ** a purge (remove from the shard, delete the persisted copy) is one
+    critical section of the shard lock: discharged per run on the skeleton of
+    RemoveHTTPCache (PerRun/C18_inst.v) *)
+Theorem C18_one_section_sound : forall m l t r,
+  Atomic.one_section m l = true -> Atomic.path_list l t r -> Atomic.count (Atomic.is_acq m) t <= 1 /\ Atomic.count (Atomic.is_rel m) t = 0.
+Proof. exact Atomic.one_section_sound. Qed.
+Print Assumptions C18_one_section_sound.
